@@ -35,7 +35,7 @@ LEVEL_TEXT = ("Generated doctests (run from a bare docstring and from a module f
               "list with the same entries, warnings.filters equals its copy and warnings.showwarning is the same function, no "
               "event loop is running and none created by the run is left unclosed, the cwd is unchanged. The same snapshot is "
               "taken around utils.import_module_from_path for modules that import cleanly, raise, import a sibling or sit "
-              "three packages deep, with index 0 and -1. Randomised exploration of a finite product with shrinking.")
+              "three packages deep, or themselves add an entry to sys.path (before failing or not: the temporary directory must be gone and every earlier entry in place), with index 0 and -1. Randomised exploration of a finite product with shrinking.")
 LEVEL_NOTE = ("Trusted: the snapshot comparison; the snapshot is taken inside the Hypothesis example, immediately before the call. "
               "Bodies that replace sys.stderr or edit sys.path themselves are not generated (nothing in xdoctest claims to undo "
               "them), but both are still compared after every generated body.")
@@ -49,6 +49,9 @@ OUTCOMES = ['pass', 'mismatch', 'exception', 'expected_exc', 'exit_test', 'all_s
             'bad_directive', 'system_exit', 'keyboard_interrupt']
 FEATURES = ['prints', 'replace_stdout', 'simplefilter', 'filterwarnings', 'showwarning', 'warn', 'await', 'sleep', 'pending_task',
             'stdout_in_func']
+
+IMPORT_KINDS = ['clean', 'raises', 'syntax_error', 'sibling', 'sibling_raises', 'deep', 'init_raises', 'edits_path', 'edits_path_raises',
+                'edits_path_front', 'edits_path_front_raises']
 
 FEATURE_LINES = {
     'prints': [">>> print('some output')"],
@@ -271,9 +274,12 @@ def check_import_case(case, ctx):
             files[top + '/__init__.py'] = "raise RuntimeError('vp package init fails')\n"
             files[top + '/m.py'] = 'Q = 1\n'
             target = top + '/m.py'
-        elif kind == 'edits_path':
-            # the imported module itself appends to sys.path: outside the claim (counted, not asserted)
-            files[top + '.py'] = 'import sys\nsys.path.append("/nonexistent/vp")\n'
+        elif kind in ('edits_path', 'edits_path_raises', 'edits_path_front', 'edits_path_front_raises'):
+            # the imported module itself adds an entry to sys.path (displacing the temporary one): that entry is the
+            # module's own doing, but the temporary directory must be gone and every earlier entry still in place
+            how = 'insert(0, "/nonexistent/vp_vendor")' if 'front' in kind else 'append("/nonexistent/vp_vendor")'
+            files[top + '.py'] = 'import sys\nsys.path.{}\n'.format(how) + ("raise ImportError('vp: fails after editing sys.path')\n"
+                                                                          if kind.endswith('raises') else '')
             target = top + '.py'
         else:
             raise KeyError(kind)
@@ -288,6 +294,10 @@ def check_import_case(case, ctx):
             utils.import_module_from_path(os.path.join(root, *target.split('/')), index=index)
         except BaseException as e:   # noqa
             raised = e
+        after_path = list(sys.path)
+        if kind.startswith('edits_path'):
+            # set the module's own entry aside before comparing
+            sys.path[:] = [p for p in sys.path if p != '/nonexistent/vp_vendor']
         problems = compare(before, 'import')
         restore(before)
         sandbox.purge_modules([top])
@@ -296,11 +306,13 @@ def check_import_case(case, ctx):
         ctx.tag('import:' + kind, 'index:{}'.format(index))
         if kind not in ('clean',):
             ctx.nontriv(('import', kind, index), {'import_kind': kind, 'index': index, 'raised': repr(raised)[:200]})
-    expect_raise = kind in ('raises', 'syntax_error', 'sibling_raises', 'init_raises')
+    expect_raise = kind in ('raises', 'syntax_error', 'sibling_raises', 'init_raises', 'edits_path_raises', 'edits_path_front_raises')
     if expect_raise != (raised is not None):
         raise Violation('import_outcome:' + kind, 'import of a {} module: raised={!r}'.format(kind, raised))
-    if kind == 'edits_path':
-        return
+    if kind.startswith('edits_path') and root in after_path:
+        raise Violation('import_leak:tempdir_left:' + kind,
+                        'the temporary directory is still in sys.path after import_module_from_path of a module that edits '
+                        'sys.path itself (index={}, raised={!r})'.format(index, raised))
     if problems:
         raise Violation('import_leak:{}:{}'.format(problems[0][0], kind),
                         'after import_module_from_path of a {} module (index={}): {}'.format(kind, index, '; '.join(p[1] for p in problems)))
@@ -318,8 +330,7 @@ def case_strategy(D):
 
 @composite
 def import_strategy(D):
-    return {'target': 'import', 'kind': D.choice(['clean', 'raises', 'syntax_error', 'sibling', 'sibling_raises', 'deep', 'init_raises',
-                                                  'edits_path']), 'index': D.choice([-1, 0])}
+    return {'target': 'import', 'kind': D.choice(IMPORT_KINDS), 'index': D.choice([-1, 0])}
 
 
 def hyp_runs(ctx, n_examples):
@@ -347,7 +358,7 @@ def product(ctx, shard, nshards):
                             ctx.guard(check_case, case)
     if shard == 0:
         ctx.exhaustive.append('outcome (11) x single feature (11) x on_error (2) x mode (2) x verbosity {0,2} x split (2)')
-        for kind in ['clean', 'raises', 'syntax_error', 'sibling', 'sibling_raises', 'deep', 'init_raises', 'edits_path']:
+        for kind in IMPORT_KINDS:
             for index in (-1, 0):
                 ctx.guard(check_case, {'target': 'import', 'kind': kind, 'index': index})
 
